@@ -45,6 +45,10 @@ def checked(mod, case):
     except BaseException as e:  # noqa: BLE001
         if type(e).__module__.startswith("hypothesis"):
             raise
+        if type(e).__name__ == "NormError":
+            # toJson() produced something that is not a document of the specified shape (a non-number in a numeric
+            # field, a missing key): the library's output is wrong, not the harness
+            raise Violation("malformed-document", f"toJson() is not a well-formed document: {e}", {"what": "document-shape"}) from None
         fr = lib_frame(e.__traceback__)
         if fr is None:
             raise
